@@ -2730,3 +2730,63 @@ V(id='c33-lu-cache-ignores-overwrite', prop='C33', file='mpmath/matrices/linalg.
 V(id='c33-benign-quad-node-key-types-first', prop='C33', file='mpmath/calculus/quadrature.py',
   old="        key = (a, b, type(a), type(b), degree, prec)\n", new="        key = (type(a), type(b), a, b, degree, prec)\n",
   expect='silent')
+
+# ---- C38 seeding round 7: X-R12 unconverted matrix entries (seed C38-8) ----
+V(id='c38-matrix-from-matrix-copies-dict', prop='C38', file='mpmath/matrices/matrices.py',
+  old="            for i in xrange(A.__rows):\n                for j in xrange(A.__cols):\n                    self[i, j] = A[i, j]\n        elif hasattr(args[0], 'tolist'):",
+  new="            self.__data = A._matrix__data.copy()\n        elif hasattr(args[0], 'tolist'):",
+  expect='fire:X-R12:__init__')
+V(id='c38-slice-assign-any-matrix-unconverted', prop='C38', file='mpmath/matrices/matrices.py',
+  old="            if isinstance(value,self.ctx.matrix):\n                # Assign elements to matrix if input and output dimensions match",
+  new="            if isinstance(value,_matrix):\n                # Assign elements to matrix if input and output dimensions match",
+  expect='fire:X-R12:__setitem__')
+V(id='c38-benign-matrix-from-matrix-same-context-fast', prop='C38', file='mpmath/matrices/matrices.py',
+  old="            for i in xrange(A.__rows):\n                for j in xrange(A.__cols):\n                    self[i, j] = A[i, j]\n        elif hasattr(args[0], 'tolist'):",
+  new="            if isinstance(A, self.ctx.matrix):\n                self.__data = A._matrix__data.copy()\n            else:\n                for i in xrange(A.__rows):\n                    for j in xrange(A.__cols):\n                        self[i, j] = A[i, j]\n        elif hasattr(args[0], 'tolist'):",
+  expect='silent')
+
+# ---- C35 seeding round 7: Q-R11 namespace fill (seed C35-6) ----
+V(id='c35-identify-namespace-filled-only-when-empty', prop='C35', file='mpmath/identification.py',
+  old="        if 'mpf' not in names:\n", new="        if not names:\n",
+  expect='fire:Q-R11:identify')
+V(id='c35-identify-namespace-never-filled', prop='C35', file='mpmath/identification.py',
+  old="        if 'mpf' not in names:\n            for name in dir(ctx):\n                names.setdefault(name, getattr(ctx, name))\n", new="",
+  expect='fire:Q-R11:identify')
+V(id='c35-benign-identify-namespace-filled-always', prop='C35', file='mpmath/identification.py',
+  old="        if 'mpf' not in names:\n            for name in dir(ctx):\n                names.setdefault(name, getattr(ctx, name))\n",
+  new="        for name in dir(ctx):\n            names.setdefault(name, getattr(ctx, name))\n",
+  expect='silent')
+
+# ---- C07 / C08 seeding round 7: L-R3 text never through float() for its value (seed C08-4) ----
+V(id='c07-string-fast-path-through-float', prop='C07', file='mpmath/ctx_mp_python.py',
+  old="        if isinstance(x, basestring): return from_str(x, prec, rounding)\n        if isinstance(x, cls.context.constant): return x.func(prec, rounding)\n",
+  new="        if isinstance(x, basestring):\n            if prec == 53 and rounding == round_nearest:\n                try: f = float(x)\n                except ValueError: f = 0.0\n                if f and f - f == 0.0:\n                    return from_float(f)\n            return from_str(x, prec, rounding)\n        if isinstance(x, cls.context.constant): return x.func(prec, rounding)\n",
+  expect='fire:L-R3:mpf_convert_arg')
+V(id='c08-string-fast-path-through-float', prop='C08', file='mpmath/ctx_mp_python.py',
+  old="        if isinstance(x, basestring): return from_str(x, prec, rounding)\n        if isinstance(x, cls.context.constant): return x.func(prec, rounding)\n",
+  new="        if isinstance(x, basestring):\n            if prec == 53 and rounding == round_nearest:\n                try: f = float(x)\n                except ValueError: f = 0.0\n                if f and f - f == 0.0:\n                    return from_float(f)\n            return from_str(x, prec, rounding)\n        if isinstance(x, cls.context.constant): return x.func(prec, rounding)\n",
+  expect='fire:L-R3:mpf_convert_arg')
+V(id='c07-str-to-man-exp-value-from-float', prop='C07', file='mpmath/libmp/libmpf.py',
+  old="    # Verify that the input is a valid float literal\n    float(x)\n", new="    # Verify that the input is a valid float literal\n    approx = float(x)\n",
+  expect='fire:L-R3:str_to_man_exp')
+
+# ---- C39 second hunt: N-R9 exact rational branches (fix e5a5128) ----
+V(id='c39-isint-fraction-rounded', prop='C39', file='mpmath/ctx_mp_python.py',
+  old="        if isinstance(x, numbers.Rational): # e.g. Fraction: exactly\n            return x.denominator == 1\n", new="",
+  expect='fire:N-R9:isint')
+V(id='c39-isnpint-fraction-rounded', prop='C39', file='mpmath/ctx_mp.py',
+  old="        if isinstance(x, numbers.Rational): # e.g. Fraction: exactly\n            return x.denominator == 1 and x.numerator <= 0\n", new="",
+  expect='fire:N-R9:isnpint')
+V(id='c39-nint-distance-fraction-rounded', prop='C39', file='mpmath/ctx_mp.py',
+  old="        elif isinstance(x, numbers.Rational): # e.g. Fraction: exactly\n            return ctx.nint_distance(rational.mpq(x.numerator, x.denominator))\n", new="",
+  expect='fire:N-R9:nint_distance')
+# ---- C24 third hunt: T-R14 unbounded term generators (fix 9dd448e) ----
+V(id='c24-primezeta-term-count-unbounded', prop='C24', file='mpmath/functions/zeta.py',
+  old="        if wp > 10**6 * r:\n            raise ctx.NoConvergence(\"primezeta: re(s) is too close to 0, \"\n                \"about %i terms would be needed\" % int(wp/r))\n", new="",
+  expect='fire:T-R14:primezeta')
+V(id='c24-eulerpoly-loop-cap-dropped', prop='C24', file='mpmath/functions/zeta.py',
+  old="            k += 1\n            if k > n:\n                break\n            t = t*z*(n-k+2)/k\n", new="            k += 1\n            t = t*z*(n-k+2)/k\n",
+  expect='silent')
+V(id='c24-polyexp-no-factorial-decay', prop='C24', file='mpmath/functions/functions.py',
+  old="            k += 1\n            t = t*x/k\n    return ctx.sum_accurately(_terms, check_step=4)", new="            k += 1\n            t = t*x\n    return ctx.sum_accurately(_terms, check_step=4)",
+  expect='fire:T-R14:_polyexp')
